@@ -1,6 +1,609 @@
-//! C14 — not built yet.
-use vcommon::Args;
+//! C14 — the byte stream is framed into exactly the messages that were sent.
+//!
+//! Reader-only exploration: the "schedule" quantifier of this property is the way the transport
+//! splits the stream across reads (and what the handshake already consumed). Every split with at
+//! most k cuts is enumerated explicitly; inside one case the tasks run on the default schedule.
 
-pub fn main(_args: &Args) -> i32 {
-    vcommon::machinery_failure("C14: check not built yet")
+use std::{
+    os::fd::{AsFd, OwnedFd},
+    sync::Mutex,
+};
+
+use futures_lite::StreamExt;
+use serde_json::{json, Value as J};
+use vcommon::{enumerate, hash64, Args, Report, Tier, Violation};
+use zbus::{connection::Builder, zvariant::Fd, Message, MessageStream};
+
+use crate::world::{inode_of, new_fd, Link, SockCfg, World, GUID};
+
+pub struct Msg {
+    pub name: &'static str,
+    pub bytes: Vec<u8>,
+    pub fds: Vec<OwnedFd>,
+}
+
+fn corpus() -> Vec<Msg> {
+    let mut out = vec![];
+    let mut add = |name: &'static str, m: Message| {
+        let data = m.data();
+        let fds = data
+            .fds()
+            .iter()
+            .map(|f| f.as_fd().try_clone_to_owned().unwrap())
+            .collect();
+        out.push(Msg {
+            name,
+            bytes: data.bytes().to_vec(),
+            fds,
+        });
+    };
+    add(
+        "sig-empty",
+        Message::signal("/p", "a.b", "S0").unwrap().build(&()).unwrap(),
+    );
+    add(
+        "call-str",
+        Message::method_call("/p/q", "M1")
+            .unwrap()
+            .interface("a.b")
+            .unwrap()
+            .build(&("hello",))
+            .unwrap(),
+    );
+    add(
+        "sig-u64",
+        Message::signal("/p", "a.b", "S2")
+            .unwrap()
+            .build(&(0x0102030405060708u64,))
+            .unwrap(),
+    );
+    add(
+        "sig-array",
+        Message::signal("/p", "a.b.c", "S3")
+            .unwrap()
+            .build(&(vec![1u32, 2, 3], "x"))
+            .unwrap(),
+    );
+    let f1 = new_fd("c14-a");
+    add(
+        "sig-1fd",
+        Message::signal("/p", "a.b", "S4")
+            .unwrap()
+            .build(&(Fd::from(f1.as_fd()),))
+            .unwrap(),
+    );
+    let (f2, f3) = (new_fd("c14-b"), new_fd("c14-c"));
+    add(
+        "sig-2fd",
+        Message::signal("/p", "a.b", "S5")
+            .unwrap()
+            .build(&(Fd::from(f2.as_fd()), 7u8, Fd::from(f3.as_fd())))
+            .unwrap(),
+    );
+    add(
+        "sig-nl",
+        // body contains "\r\n" and NUL-free text that looks like a handshake line
+        Message::signal("/p", "a.b", "S6")
+            .unwrap()
+            .build(&("OK\r\nBEGIN\r\n",))
+            .unwrap(),
+    );
+    add(
+        "sig-long",
+        Message::signal("/p", "a.b", "S7")
+            .unwrap()
+            .build(&("x".repeat(70),))
+            .unwrap(),
+    );
+    out
+}
+
+#[derive(Clone, Debug)]
+struct Case {
+    seq: Vec<usize>,
+    /// Some(k): the first k stream bytes arrive during the client handshake (same read as the
+    /// server's last handshake line).
+    leftover: Option<usize>,
+    /// chunk sizes of the rest of the stream
+    chunks: Vec<usize>,
+}
+
+impl Case {
+    fn to_json(&self, corpus: &[Msg]) -> J {
+        json!({
+            "messages": self.seq.iter().map(|i| corpus[*i].name).collect::<Vec<_>>(),
+            "seq": self.seq,
+            "leftover": self.leftover,
+            "chunks": self.chunks,
+        })
+    }
+    fn from_json(j: &J) -> Case {
+        Case {
+            seq: j["seq"].as_array().unwrap().iter().map(|x| x.as_u64().unwrap() as usize).collect(),
+            leftover: j["leftover"].as_u64().map(|x| x as usize),
+            chunks: j["chunks"].as_array().unwrap().iter().map(|x| x.as_u64().unwrap() as usize).collect(),
+        }
+    }
+}
+
+struct Yielded {
+    bytes: Vec<u8>,
+    inodes: Vec<u64>,
+    pos: u64,
+}
+
+struct Outcome {
+    yielded: Vec<Yielded>,
+    errors: Vec<String>,
+    built: bool,
+    panic: Option<String>,
+    recv_calls: usize,
+}
+
+/// message start offsets in the stream
+fn starts(corpus: &[Msg], seq: &[usize]) -> Vec<usize> {
+    let mut v = vec![];
+    let mut p = 0;
+    for i in seq {
+        v.push(p);
+        p += corpus[*i].bytes.len();
+    }
+    v
+}
+
+fn stream_of(corpus: &[Msg], seq: &[usize]) -> Vec<u8> {
+    seq.iter().flat_map(|i| corpus[*i].bytes.clone()).collect()
+}
+
+/// fds (dup'ed) of messages starting in [from, to), with offsets relative to `base`.
+fn fds_in(corpus: &[Msg], seq: &[usize], from: usize, to: usize, base: isize) -> Vec<(usize, OwnedFd)> {
+    let st = starts(corpus, seq);
+    let mut out = vec![];
+    for (k, i) in seq.iter().enumerate() {
+        if st[k] >= from && st[k] < to {
+            for fd in &corpus[*i].fds {
+                out.push(((st[k] as isize + base) as usize, fd.try_clone().unwrap()));
+            }
+        }
+    }
+    out
+}
+
+/// A read may carry the start of at most one fd-bearing message (the kernel never coalesces two
+/// SCM_RIGHTS payloads into one recvmsg).
+fn realistic(corpus: &[Msg], seq: &[usize], bounds: &[(usize, usize)]) -> bool {
+    let st = starts(corpus, seq);
+    for (from, to) in bounds {
+        let n = seq
+            .iter()
+            .enumerate()
+            .filter(|(k, i)| st[*k] >= *from && st[*k] < *to && !corpus[**i].fds.is_empty())
+            .count();
+        if n > 1 {
+            return false;
+        }
+    }
+    true
+}
+
+fn run_case(corpus: &[Msg], case: &Case) -> Outcome {
+    let r = vcommon::catch(|| run_case_inner(corpus, case));
+    match r {
+        Ok(o) => o,
+        Err(p) => Outcome {
+            yielded: vec![],
+            errors: vec![],
+            built: false,
+            panic: Some(format!("{p} at {}", vcommon::last_panic_location())),
+            recv_calls: 0,
+        },
+    }
+}
+
+fn run_case_inner(corpus: &[Msg], case: &Case) -> Outcome {
+    let mut w = World::new();
+    let link = Link::new();
+    let sock = link.end_a(SockCfg::default());
+    let stream_bytes = stream_of(corpus, &case.seq);
+    let authenticated = case.leftover.is_none();
+    let root = w.spawn("build", async move {
+        let b = if authenticated {
+            Builder::authenticated_socket(sock, GUID).unwrap()
+        } else {
+            Builder::socket(sock)
+        };
+        let conn = b.p2p().internal_executor(false).build().await?;
+        let stream = MessageStream::from(&conn);
+        Ok::<_, zbus::Error>((conn, stream))
+    });
+    let mut pos = 0usize;
+    if let Some(k) = case.leftover {
+        // play the server side of the SASL handshake
+        w.settle(); // client sent AUTH
+        link.b2a.push(format!("OK {GUID}\r\n").as_bytes(), vec![]);
+        w.settle(); // client sent NEGOTIATE_UNIX_FD + BEGIN
+        let line = b"AGREE_UNIX_FD\r\n";
+        let mut chunk = line.to_vec();
+        chunk.extend_from_slice(&stream_bytes[..k]);
+        let fds = fds_in(corpus, &case.seq, 0, k, line.len() as isize);
+        link.b2a.push_with_fds(&chunk, fds);
+        pos = k;
+    }
+    w.settle();
+    for sz in &case.chunks {
+        let fds = fds_in(corpus, &case.seq, pos, pos + sz, -(pos as isize));
+        link.b2a.push_with_fds(&stream_bytes[pos..pos + sz], fds);
+        pos += sz;
+        w.settle();
+    }
+    let built = root.take();
+    let mut out = Outcome {
+        yielded: vec![],
+        errors: vec![],
+        built: false,
+        panic: None,
+        recv_calls: link.b2a.with(|c| c.recv_calls),
+    };
+    let (conn, mut stream) = match built {
+        Some(Ok(x)) => x,
+        Some(Err(e)) => {
+            out.errors.push(format!("build: {e}"));
+            return out;
+        }
+        None => {
+            out.errors.push("build did not complete".into());
+            return out;
+        }
+    };
+    out.built = true;
+    // drain the stream without blocking
+    let drained = w.complete("drain", async move {
+        let mut items = vec![];
+        while let Some(Some(item)) = futures_lite::future::poll_once(stream.next()).await {
+            items.push(item);
+            if items.len() > 16 {
+                break;
+            }
+        }
+        (items, stream)
+    });
+    if let Some((items, _stream)) = drained {
+        for it in items {
+            match it {
+                Ok(m) => {
+                    let d = m.data();
+                    out.yielded.push(Yielded {
+                        bytes: d.bytes().to_vec(),
+                        inodes: d.fds().iter().map(|f| inode_of(&f.as_fd())).collect(),
+                        pos: {
+                            // recv_position is opaque but ordered; keep it as its Debug form index
+                            let s = format!("{:?}", m.recv_position());
+                            s.chars().filter(|c| c.is_ascii_digit()).collect::<String>().parse().unwrap_or(0)
+                        },
+                    });
+                }
+                Err(e) => out.errors.push(format!("stream: {e}")),
+            }
+        }
+    }
+    drop(conn);
+    out
+}
+
+fn check_case(corpus: &[Msg], case: &Case, report: &Report) {
+    let o = run_case(corpus, case);
+    report.eval(1);
+    let has_fd = case.seq.iter().any(|i| !corpus[*i].fds.is_empty());
+    let leftover_covers_fd_msg = case
+        .leftover
+        .map(|k| {
+            let st = starts(corpus, &case.seq);
+            case.seq
+                .iter()
+                .enumerate()
+                .any(|(j, i)| st[j] < k && !corpus[*i].fds.is_empty())
+        })
+        .unwrap_or(false);
+    // feature: is there an fd-less message completely inside the leftover that precedes an
+    // fd-bearing message whose first byte is also inside the leftover?
+    let fdless_before_fd_in_leftover = case
+        .leftover
+        .map(|k| {
+            let st = starts(corpus, &case.seq);
+            let first_fd = case
+                .seq
+                .iter()
+                .enumerate()
+                .find(|(j, i)| st[*j] < k && !corpus[**i].fds.is_empty())
+                .map(|(j, _)| j);
+            match first_fd {
+                Some(j) => j > 0,
+                None => false,
+            }
+        })
+        .unwrap_or(false);
+    let mk = |clause: &str, detail: String| {
+        Violation::new(clause, detail, case.to_json(corpus))
+            .feat("leftover", case.leftover.is_some())
+            .feat("has_fd", has_fd)
+            .feat("leftover_covers_fd_msg_start", leftover_covers_fd_msg)
+            .feat("fdless_msg_before_fd_msg_in_leftover", fdless_before_fd_in_leftover)
+    };
+    if let Some(p) = &o.panic {
+        report.outcome("panic");
+        report.violation(mk("no-panic", format!("panic while framing {:?}: {p}", case.to_json(corpus))));
+        return;
+    }
+    let mut ok = true;
+    if o.yielded.len() != case.seq.len() || !o.errors.is_empty() {
+        ok = false;
+        report.violation(mk(
+            "exactly-the-sent-messages",
+            format!(
+                "sent {} message(s), stream yielded {} and errors {:?}; case {}",
+                case.seq.len(),
+                o.yielded.len(),
+                o.errors,
+                case.to_json(corpus)
+            ),
+        ));
+    } else {
+        let mut last = 0u64;
+        for (k, y) in o.yielded.iter().enumerate() {
+            let m = &corpus[case.seq[k]];
+            if y.bytes != m.bytes {
+                ok = false;
+                report.violation(mk(
+                    "byte-identical-in-order",
+                    format!("message {k} differs from what was sent; case {}", case.to_json(corpus)),
+                ));
+            }
+            let want: Vec<u64> = m.fds.iter().map(|f| inode_of(f)).collect();
+            if y.inodes != want {
+                ok = false;
+                report.violation(mk(
+                    "fds-accompany-their-message",
+                    format!(
+                        "message {k} ({}) carries fds {:?}, expected {:?}; case {}",
+                        m.name,
+                        y.inodes,
+                        want,
+                        case.to_json(corpus)
+                    ),
+                ));
+            }
+            if y.pos <= last && k > 0 {
+                ok = false;
+                report.violation(mk(
+                    "recv-position-increasing",
+                    format!("receive positions not strictly increasing: {} after {}; case {}", y.pos, last, case.to_json(corpus)),
+                ));
+            }
+            last = y.pos;
+        }
+    }
+    report.outcome(if ok { "framed-correctly" } else { "misframed" });
+    if case.chunks.len() > 1 || case.leftover.map(|k| k > 0).unwrap_or(false) {
+        report.nontrivial(hash64(&(&case.seq, case.leftover, &case.chunks)));
+    }
+}
+
+/// A header announcing more than 128 MiB must be rejected without reading the body.
+fn oversize(report: &Report) {
+    for (name, body_len, fields_len) in [
+        ("body-128MiB+1", 128u32 * 1024 * 1024 + 1, 0u32),
+        ("body-u32max", u32::MAX, 0),
+        ("fields-128MiB", 0, 128 * 1024 * 1024),
+        ("sum-just-over", 128 * 1024 * 1024 - 16, 8),
+    ] {
+        for split in [vec![16usize], vec![1, 15], vec![8, 8]] {
+            let r = vcommon::catch(|| {
+                let mut w = World::new();
+                let link = Link::new();
+                let sock = link.end_a(SockCfg::default());
+                let root = w.spawn("build", async move {
+                    let conn = Builder::authenticated_socket(sock, GUID)
+                        .unwrap()
+                        .p2p()
+                        .internal_executor(false)
+                        .build()
+                        .await
+                        .unwrap();
+                    let s = MessageStream::from(&conn);
+                    (conn, s)
+                });
+                w.settle();
+                let mut hdr = vec![b'l', 4, 0, 1];
+                hdr.extend_from_slice(&body_len.to_le_bytes());
+                hdr.extend_from_slice(&1u32.to_le_bytes());
+                hdr.extend_from_slice(&fields_len.to_le_bytes());
+                let mut pos = 0;
+                for s in &split {
+                    link.b2a.push(&hdr[pos..pos + s], vec![]);
+                    pos += s;
+                    w.settle();
+                }
+                let calls_after_header = link.b2a.with(|c| c.recv_calls);
+                let bytes_read = link.b2a.with(|c| c.recv_bytes);
+                // offer more bytes: a correct reader must not take them
+                link.b2a.push(&[0u8; 64], vec![]);
+                w.settle();
+                let calls_end = link.b2a.with(|c| c.recv_calls);
+                let bytes_end = link.b2a.with(|c| c.recv_bytes);
+                let (conn, mut s) = root.take().unwrap();
+                let item = w.complete("next", async move { futures_lite::future::poll_once(s.next()).await });
+                drop(conn);
+                (calls_after_header, calls_end, bytes_read, bytes_end, item.map(|i| i.map(|i| i.map(|r| r.is_err()))))
+            });
+            report.eval(1);
+            report.nontrivial(hash64(&(name, &split)));
+            let case = json!({"oversize": name, "body_len": body_len, "fields_len": fields_len, "split": split});
+            match r {
+                Err(p) => report.violation(
+                    Violation::new("no-panic", format!("panic on oversize header {name}: {p}"), case).feat("oversize", name),
+                ),
+                Ok((_c0, _c1, b0, b1, item)) => {
+                    let rejected = matches!(item, Some(Some(Some(true))));
+                    if b1 != b0 {
+                        report.outcome("oversize-read-on");
+                        report.violation(
+                            Violation::new(
+                                "oversize-rejected-without-reading",
+                                format!("after an oversize header ({name}) the reader consumed {} more bytes", b1 - b0),
+                                case,
+                            )
+                            .feat("oversize", name),
+                        );
+                    } else if !rejected {
+                        report.outcome("oversize-not-rejected");
+                        report.violation(
+                            Violation::new(
+                                "oversize-rejected-without-reading",
+                                format!("oversize header ({name}) was not reported as an error on the stream: {item:?}"),
+                                case,
+                            )
+                            .feat("oversize", name),
+                        );
+                    } else {
+                        report.outcome("oversize-rejected");
+                    }
+                }
+            }
+        }
+    }
+}
+
+fn build_cases(corpus: &[Msg], tier: Tier, skipped: &mut u64) -> Vec<Case> {
+    let n = corpus.len();
+    let mut seqs: Vec<Vec<usize>> = vec![];
+    for a in 0..n {
+        seqs.push(vec![a]);
+    }
+    for a in 0..n {
+        for b in 0..n {
+            seqs.push(vec![a, b]);
+        }
+    }
+    for a in 0..n {
+        for b in 0..n {
+            for c in 0..n {
+                seqs.push(vec![a, b, c]);
+            }
+        }
+    }
+    let mut cases = vec![];
+    for seq in &seqs {
+        let len: usize = seq.iter().map(|i| corpus[*i].bytes.len()).sum();
+        // cut budget by sequence length and tier
+        let max_cuts = match (seq.len(), tier) {
+            (1, Tier::Quick) => 2,
+            (2, Tier::Quick) => 2,
+            (3, Tier::Quick) => 1,
+            (1, Tier::Thorough) => 3,
+            (2, Tier::Thorough) => 2,
+            (_, Tier::Thorough) => 2,
+            _ => 1,
+        };
+        // quick: 2-cut splits of 2-message sequences only when both messages are short
+        let max_cuts = if tier == Tier::Quick && seq.len() == 2 && len > 330 { 1 } else { max_cuts };
+        for cuts in enumerate::cuts(len, max_cuts) {
+            let chunks = enumerate::chunks_from_cuts(len, &cuts);
+            let mut bounds = vec![];
+            let mut p = 0;
+            for c in &chunks {
+                bounds.push((p, p + c));
+                p += c;
+            }
+            if !realistic(corpus, seq, &bounds) {
+                *skipped += 1;
+                continue;
+            }
+            cases.push(Case {
+                seq: seq.clone(),
+                leftover: None,
+                chunks,
+            });
+        }
+        // byte at a time
+        cases.push(Case {
+            seq: seq.clone(),
+            leftover: None,
+            chunks: vec![1; len],
+        });
+        // handshake leftovers: every prefix length; the rest in one chunk, and (for ≤ 2 messages)
+        // cut once at every position
+        if seq.len() <= tier.pick(2, 3) {
+            for k in 0..=len.min(1000) {
+                if !realistic(corpus, seq, &[(0, k)]) {
+                    *skipped += 1;
+                    continue;
+                }
+                let rest = len - k;
+                if rest == 0 {
+                    cases.push(Case { seq: seq.clone(), leftover: Some(k), chunks: vec![] });
+                    continue;
+                }
+                if realistic(corpus, seq, &[(k, len)]) {
+                    cases.push(Case { seq: seq.clone(), leftover: Some(k), chunks: vec![rest] });
+                } else {
+                    *skipped += 1;
+                }
+                if seq.len() == 1 || tier == Tier::Thorough {
+                    for c in 1..rest {
+                        if realistic(corpus, seq, &[(k, k + c), (k + c, len)]) {
+                            cases.push(Case { seq: seq.clone(), leftover: Some(k), chunks: vec![c, rest - c] });
+                        } else {
+                            *skipped += 1;
+                        }
+                    }
+                }
+            }
+        }
+    }
+    cases
+}
+
+pub fn main(args: &Args) -> i32 {
+    let corpus = corpus();
+    if let Some(p) = &args.replay {
+        let j = vcommon::load_replay(p);
+        let case = Case::from_json(&j["replay"]);
+        let o = run_case(&corpus, &case);
+        println!("case: {}", case.to_json(&corpus));
+        println!("built={} panic={:?} errors={:?}", o.built, o.panic, o.errors);
+        for y in &o.yielded {
+            println!("yielded {} bytes fds={:?} pos={}", y.bytes.len(), y.inodes, y.pos);
+        }
+        return 0;
+    }
+    let report = Report::new("C14", args.tier, args.seed, "model_checking");
+    let mut skipped = 0u64;
+    let cases = build_cases(&corpus, args.tier, &mut skipped);
+    report.set("splits_skipped_as_unrealistic", json!(skipped));
+    report.sample(cases[cases.len() / 3].to_json(&corpus));
+    report.sample(cases[cases.len() / 2].to_json(&corpus));
+    report.sample(cases[cases.len() - 1].to_json(&corpus));
+    let transitions = Mutex::new(0u64);
+    vcommon::par_for(cases.len(), 64, |i| {
+        check_case(&corpus, &cases[i], &report);
+        *transitions.lock().unwrap() += (cases[i].chunks.len() + 1) as u64;
+    });
+    oversize(&report);
+    report.assume("a read carries the start of at most one fd-bearing message (Linux never coalesces two SCM_RIGHTS payloads); fds travel with the first byte of their message");
+    report.assume("the transport honours the ReadHalf contract (scripted in-memory pipe); the real unix/tcp back-ends are below this seam");
+    report.assume("inside one case tasks run on the default schedule: the only other task is the socket reader");
+    report.set("states", json!(report.evaluations()));
+    report.set("transitions", json!(*transitions.lock().unwrap()));
+    report.set("traces_validated_against_impl", json!(report.evaluations()));
+    report.set(
+        "bounds",
+        json!({"corpus": corpus.iter().map(|m| json!({"name": m.name, "len": m.bytes.len(), "fds": m.fds.len()})).collect::<Vec<_>>(),
+               "sequences": "all sequences of 1..3 corpus messages",
+               "cuts": args.tier.pick("≤2 cuts for 1–2 messages (1 cut when the pair is longer than 330 bytes), ≤1 cut for 3 messages, plus byte-at-a-time", "≤3 cuts for 1 message, ≤2 cuts for 2–3 messages, plus byte-at-a-time"),
+               "leftover": "every prefix length of the stream handed over by a real client handshake (same read as the server's last line), rest in one chunk; additionally every 1-cut of the rest"}),
+    );
+    report.finish(
+        "every sequence of 1..3 corpus messages × every way to cut the byte stream at ≤k positions (+ byte-at-a-time) × every handshake-leftover prefix length; non-trivial = the stream is split or part of it arrived during the handshake; distinct by (sequence, leftover, chunking)",
+        true,
+    )
 }
